@@ -266,6 +266,7 @@ var splitPieces = []string{
 	";", ";", ";;", " ; ", "T", "T | count", "let x = 1", "let s = 'a;b'", "T | where a == \"x;\"", "T | where `a;b` > 1", "// c;\n", "// c;", "T // c\n| take 1",
 	"'", "\"", "`", "'a", "`a", "\\", "'\\'", "1e", "0x", "1.", ".", "<", "=", "!", "/", "-", "T | take 1e", "T | where a <", "T | where a =", "T | where a !",
 	"\n", " ", "T|join (U) on k", "(", ")", "[", "]", "x", "0", "é", "\xff", "\ufeff", "\u00a0", "\r",
+	"\xc0\xbb", "'a\xc0\xa7; b'", "\xc0\x8a", "`a\xc0\xbbb`", "/* ; */", "/*", "#! ;",
 	"// c\r; x", "'a\rb;c'", "`x\ry;z`", "T // five\r; ten\n", "\r;", ";\r", "h';'", "1e-;",
 	"X | join () on a == b", "T | join (5) on k", "T | join (| count) on k", "T | join", "T | join ( )", "T |", "T | where", "T | take", "T | summarize by", "let", "let x", "let x =", "T | project a.", "T | where f(a.)",
 	"// c\u2028; d\n", "// c\u0085;\n", "\ufffd", "\xa0", "\x85", "\u2028", "\u0085", "\u200b", "\xc0\xaf", "\xed\xa0\x80", "/'", "/\"", "/`", "/;", "`a\\`", "'a\\'", "`\\`;", "hits/`c;m`", "x /; y",
